@@ -50,6 +50,11 @@ def cases(tier):
         for shape in dd.SHAPES:
             for i in range(0, len(dd.lattice(shape, tier, dd.TC_WIDE)), 1 if tier == "thorough" else 4):
                 out.append({"shape": shape, "tc": "wide", "i": i, "key_order": order})
+    # reporting temperatures that are not float64: whole degrees as int64, and float32 (quarter degrees are exact in both)
+    for dtype in ("int64", "float32"):
+        for shape in dd.SHAPES:
+            for i in range(0, len(dd.lattice(shape, tier, dd.TC_WIDE)), 1 if tier == "thorough" else 4):
+                out.append({"shape": shape, "tc": "wide", "i": i, "t_dtype": dtype})
     # documents of the 2.0 format (from_2_0_dict): four model types x a small coefficient lattice
     out += [{"shape": "legacy2", "tc": "legacy2", "i": i} for i in range(len(legacy2_lattice()))]
     return out
@@ -207,11 +212,18 @@ def run_case(case):
         if case.get("key_order"):
             doc = reorder(doc, case["key_order"])
         m = em.DailyModel.from_dict(doc)
+    Tcol = T
+    if case.get("t_dtype") == "int64":
+        T = np.arange(-60.0, 141.0)           # whole degrees
+        Tcol = T.astype("int64")
+    elif case.get("t_dtype") == "float32":
+        T = np.arange(-60.0, 140.25, 0.25)    # exactly representable in float32
+        Tcol = T.astype("float32")
     idx = pd.date_range("2019-01-01", periods=len(T), freq="D", tz="UTC")
-    r = em.DailyReportingData(pd.DataFrame({"temperature": T}, index=idx), is_electricity_data=True)
+    r = em.DailyReportingData(pd.DataFrame({"temperature": Tcol}, index=idx), is_electricity_data=True)
     p = m.predict(r)
     viol = []
-    if not np.array_equal(p["temperature"].to_numpy(), T):
+    if not np.array_equal(p["temperature"].to_numpy(dtype="float64"), T):
         return {"rejected": "temperature not passed through unchanged by the data class"}
     got = check_curve(c, tc, T, p["predicted"].to_numpy(float), p["heating_load"].to_numpy(float),
                       p["cooling_load"].to_numpy(float))
@@ -222,10 +234,11 @@ def run_case(case):
     for clause, detail in got:
         viol.append({"clause": clause, "key": {"shape": c["model_type"] if case["shape"] == "legacy2" else case["shape"], "smoothing": fr,
                                                **({"document": "2.0"} if case["shape"] == "legacy2" else {}),
-                                               **({"key_order": case["key_order"]} if case.get("key_order") else {})},
+                                               **({"key_order": case["key_order"]} if case.get("key_order") else {}),
+                                               **({"t_dtype": case["t_dtype"]} if case.get("t_dtype") else {})},
                      "detail": f"{detail} | coefficients {c} tc {tc}"})
     pr = p["predicted"].to_numpy(float)
-    beh = [case["shape"] + ":" + case.get("key_order", ""), bool(e.get("flat")), round(float(pr.min()), 6), round(float(pr.max()), 6), len(got)]
+    beh = [case["shape"] + ":" + case.get("key_order", "") + case.get("t_dtype", ""), bool(e.get("flat")), round(float(pr.min()), 6), round(float(pr.max()), 6), len(got)]
     return {"behaviour": beh, "violations": viol, "stats": {"points": int(len(T))}}
 
 
